@@ -1290,3 +1290,111 @@ func twinC13(pd *propDef) func(w *mc.Worker, s *scenario, dir string, trace []st
 		return v.out
 	}
 }
+
+
+// ---------------------------------------------------------------------------
+// C11
+
+func oracleC11(x *exec, v *viols, pre, post *snap, rp *reply) {
+	kind := strings.Split(rp.ev, ":")[0]
+	if (kind != "restart" && kind != "restartcut") || rp.panic != "" || x.in.dead {
+		return
+	}
+	tag := "restart"
+	if kind == "restartcut" {
+		tag = "restartcut-after-" + x.cutAfter
+	} else if strings.Contains(rp.ev, ":") {
+		tag = "restart:" + strings.SplitN(strings.SplitN(rp.ev, ":", 2)[1], "=", 2)[0]
+	}
+	if rp.err != nil {
+		v.add("restart-fails", "restart-fails:"+tag, "%s: %v", rp.ev, rp.err)
+		return
+	}
+	verifCounters["c11_restarts_judged"]++
+	holds := func(id string) []string {
+		var h []string
+		if post.TA != nil {
+			for _, g := range post.TA.Grants {
+				if g.ID == id {
+					h = append(h, "grant in "+g.Pool)
+				}
+			}
+		}
+		if post.BL != nil {
+			for _, b := range post.BL.Balloons {
+				for _, cid := range b.Containers {
+					if cid == id {
+						h = append(h, "member of "+b.Name)
+					}
+				}
+			}
+		}
+		if _, ok := post.MemZone[id]; ok {
+			h = append(h, "memory allocation")
+		}
+		return h
+	}
+	all := append(append([]*wctr{}, x.w.ctrs...), x.w.old...)
+	for _, c := range all {
+		if c.life == lifeNone {
+			continue
+		}
+		h := holds(c.id())
+		_, cached := post.Cache[c.id()]
+		switch {
+		case c.live():
+			hasCPU := false
+			for _, s := range h {
+				if s != "memory allocation" {
+					hasCPU = true
+				}
+			}
+			if !hasCPU {
+				v.add("live-container-without-allocation", "live-container-without-allocation:"+tag, "after %s the runtime reports %s as %s but it holds %v", rp.ev, c.id(), lifeNames[c.life], h)
+			}
+		case c.life == lifeStopped:
+			if len(h) > 0 {
+				v.add("stopped-container-holds-resources", "stopped-container-holds-resources:"+tag, "after %s the runtime reports %s as stopped but it holds %v", rp.ev, c.id(), h)
+			}
+		default: // removed, failed: unknown to the runtime
+			if len(h) > 0 {
+				v.add("unknown-container-holds-resources", "unknown-container-holds-resources:"+tag, "after %s the runtime does not know %s but it holds %v", rp.ev, c.id(), h)
+			}
+			if cached {
+				v.add("unknown-container-not-purged", "unknown-container-not-purged:"+tag, "after %s the runtime does not know %s but it is still in the cache", rp.ev, c.id())
+			}
+		}
+	}
+	for _, p := range x.w.pods {
+		known := p.life == lifeRunning || p.life == lifeStopped
+		cached := false
+		for _, id := range post.Pods {
+			if id == p.slot {
+				cached = true
+			}
+		}
+		if !known && cached {
+			v.add("unknown-pod-not-purged", "unknown-pod-not-purged:"+tag, "after %s the runtime does not know pod %s but it is still in the cache", rp.ev, p.slot)
+		}
+		if known && !cached {
+			v.add("known-pod-missing", "known-pod-missing:"+tag, "after %s the runtime's pod %s is not in the cache", rp.ev, p.slot)
+		}
+	}
+	sub := &viols{prop: "C11", scn: v.scn, trace: v.trace}
+	if post.TA != nil {
+		oracleC01(x, sub, pre, post, rp)
+		oracleC03(x, sub, pre, post, rp)
+	} else {
+		oracleC02(x, sub, pre, post, rp)
+	}
+	oracleC04(x, sub, nil, post, rp)
+	oracleC05(x, sub, pre, post, rp)
+	for _, sv := range sub.out {
+		if sv.Oracle == "exclusive-count" || sv.Oracle == "live-container-without-grant" {
+			continue // reported above / eligibility is decided at admission
+		}
+		sv.Signature = "after-" + tag + "/" + sv.Signature
+		sv.Oracle = "after-restart/" + sv.Oracle
+		v.out = append(v.out, sv)
+	}
+}
